@@ -683,6 +683,15 @@ fn gen_bdt(src: &mut Src) -> Vec<MVal> {
         src.pick(&[int(59), int(60), int(61), int(-1), MVal::Float(59.999999), MVal::Float(60.0), MVal::Float(1e9), MVal::Float(-0.5), MVal::Float(f64::NAN), MVal::Float(f64::INFINITY), MVal::Float(127.5), MVal::Float(300.0), tstr("1"), MVal::Null, int(128)]).clone()
     };
     let mut v = vec![int(y), int(mo), int(d), int(h), int(mi), s];
+    if !valid && src.chance(90) {
+        // a field that is out of range but congruent to a valid value modulo a power of two
+        // (a narrowing cast would wrap it into range): must be rejected like any other
+        let i = src.below(5);
+        let base = [src.range(MIN_Y, MAX_Y), src.range(0, 11), src.range(1, 28), src.range(0, 23), src.range(0, 59)][i];
+        let k = *src.pick(&[1i64, -1, 2, -2, 3, 255, 256, -256, 1 << 8, 1 << 16, 1 << 24, 1 << 32, -(1 << 32), 1 << 40]);
+        let m = if i == 0 { *src.pick(&[1i64 << 16, 1 << 32]) } else { *src.pick(&[1i64 << 8, 1 << 8, 1 << 16, 1 << 32]) };
+        v[i] = int(base + k.saturating_mul(m) % (1i64 << 56));
+    }
     match src.below(6) {
         0 => {
             // junk / missing trailing fields
